@@ -17,6 +17,9 @@ Families
   blocks  nested blocks: every sequence of <= 3 block kinds, homogeneous chains up to depth Dmax, sibling
           chains, else/when branches, and chains inside an included / rendered partial.
   vars    two variables in one namespace: every sequence of <= 4 assign / growing capture / output steps.
+  values  typed values (range literal / range from data, bool, nil, float, huge int, hash, nested array, empty
+          array, undefined, string) bound with assign at top level / in a loop / in an included / in a rendered
+          partial, then output, compared, iterated, filtered, passed to a partial, rebound or captured.
 """
 
 from __future__ import annotations
@@ -244,12 +247,59 @@ def var_cases(tier: str) -> Iterator[dict[str, Any]]:
                    "block_top": 4, "shape": {"steps": list(steps)}}
 
 
-FAMILIES = {"nest": nest_cases, "c07": c07_cases, "rec": rec_cases, "blocks": block_cases, "vars": var_cases}
+# -- typed values: what a limit must not change is the VALUE a name is bound to, not only its text -------------
+VALUE_EXPRS: list[tuple[str, str]] = [
+    # (expression bound with assign, expression it is compared with)
+    ("(1..4)", "(1..4)"), ("(2..n)", "(2..n)"), ("rng", "rng"), ("true", "true"), ("false", "false"), ("nil", "nil"),
+    ("1.5", "1.5"), ("fl", "2"), ("7", "7"), ("1000000000000000000000000000000", "big"), ("big", "big"),
+    ("'é\r\n'", "'é\r\n'"), ("h", "h"), ("h.b", "h.b"), ("nested", "nested"), ("nested | first", "nested[0]"),
+    ("empty", "empty"), ("nosuch", "nosuch"),
+]
+VALUE_USES: list[tuple[str, str]] = [
+    ("output", "{{ r }}"),
+    ("compare", "{% if r == CMP %}T{% else %}F{% endif %}{% if r %}t{% else %}f{% endif %}"),
+    ("iterate", "{% for i in r %}[{{ i }}]{% else %}E{% endfor %}"),
+    ("filters", "{{ r | size }},{{ r | first }},{{ r | join: '-' }}"),
+    ("render-arg", "{% render 'show', w: r %}"),
+    ("include", "{% include 'show' with r as w %}"),
+    ("reassign", "{% assign q = r %}{{ q }}{% if q == r %}T{% else %}F{% endif %}"),
+    ("capture", "{% capture c %}{{ r }}{% endcapture %}{{ c }}{% if c == r %}T{% else %}F{% endif %}"),
+]
+VALUE_SITES = ("top", "loop", "included", "rendered")
+VALUE_DATA = {"n": 4, "rng": range(3, 6), "fl": 2.0, "big": 10**30, "h": {"a": 1, "b": [1, "é"]},
+              "nested": [[1], [2, [3]]], "empty": []}
+SHOW = "<{{ w }}|{% if w == CMP %}T{% else %}F{% endif %}|{% for i in w %}{{ i }};{% endfor %}>"
+
+
+def value_cases(tier: str) -> Iterator[dict[str, Any]]:
+    """Every (typed value expression, binding site, use): the value is bound with assign and then output, compared,
+    iterated, filtered, handed to a partial that prints / compares / iterates it, rebound, or captured."""
+    for (expr, cmp_), (use, tpl), site in itertools.product(VALUE_EXPRS, VALUE_USES, VALUE_SITES):
+        body = "{% assign r = " + expr + " %}" + tpl.replace("CMP", cmp_)
+        partials = {"show": SHOW.replace("CMP", cmp_)}
+        if site == "top":
+            src = body
+        elif site == "loop":
+            src = "{% for k in (1..2) %}" + body + "{% endfor %}{{ r }}"
+        elif site == "included":
+            partials["site"] = body
+            src = "{% include 'site' %}/{{ r }}"
+        else:
+            if use == "include":
+                continue  # include is disabled inside a rendered partial
+            partials["site"] = body
+            src = "{% render 'site' %}/{{ r }}"
+        yield {"family": "values", "source": src, "partials": partials, "data": VALUE_DATA, "extra": False,
+               "loop_vals": list(range(0, 10)), "depth_top": 14, "block_top": 5,
+               "shape": {"expr": expr, "use": use, "site": site}}
+
+
+FAMILIES = {"values": value_cases, "nest": nest_cases, "c07": c07_cases, "rec": rec_cases, "blocks": block_cases, "vars": var_cases}
 
 
 def all_cases(tier: str) -> list[dict[str, Any]]:
     out: list[dict[str, Any]] = []
-    for fam in ("nest", "c07", "rec", "blocks", "vars"):
+    for fam in ("nest", "c07", "rec", "blocks", "vars", "values"):
         out.extend(FAMILIES[fam](tier))
     return out
 
